@@ -14,7 +14,7 @@ import vlib  # noqa: E402
 PROP = "C19"
 ENGINE = "auto"
 LEAN_MODULES = ["RtoscModel.Props.C19"]
-THEOREMS = ["Rtosc.Auto.emit_in_range_right_type", "Rtosc.Auto.emit_monotone",
+THEOREMS = ["Rtosc.Auto.emit_in_range_right_type", "Rtosc.Auto.binding_is_recorded", "Rtosc.Auto.emit_monotone",
             "Rtosc.Auto.default_gain_linear", "Rtosc.Auto.learn_queue_refines",
             "Rtosc.Auto.unbound_controller_serves_head", "Rtosc.Auto.learn_order_preserved",
             "Rtosc.Auto.bound_cc_drives_its_slot", "Rtosc.Auto.ieee_model_laws"]
@@ -25,34 +25,61 @@ STATELESS = True          # one op line = one whole history, lines are independe
 RULE = ("one op line = one whole history over a fresh AutomationMgr (2..6 slots x 1..3 sub-automations, 1..40 "
         "operations: createBinding with/without learn, setSlotSubPath, clearSlot, clearSlotSub, "
         "setSlotSubGain/Offset+updateMapping, setSlot/setSlotSub with values in and outside [0,1], handleMidi with "
-        "bound/unbound CCs and complete/partial/interleaved NRPN sequences) over a generated port table (int, float "
-        "linear, float log with and without logmin, toggle, plus unusable ports); a case is non-trivial when the "
-        "history binds at least one parameter and contains an emitting or MIDI operation; distinct = distinct op line")
-ASSUMPTIONS = ["floats are finite (no NaN/infinity, no overflow); parameter ranges have min <= max (logmin <= max)",
-               "integer parameters have integer-valued bounds below 2^24",
+        "bound/unbound CCs (every controller number 0..127) and complete/partial/interleaved NRPN sequences over any "
+        "parameter number) over a generated port table (int, int log-scale, float linear, float log with and without "
+        "logmin, toggle, plus unusable ports; addresses of 3..120 characters, flat or nested one level; range literals "
+        "in every spelling atof reads: 1e3, 2E-2, +5, .5, 5.); a case is non-trivial when the history binds at least "
+        "one parameter and contains an emitting or MIDI operation; distinct = distinct op line")
+ASSUMPTIONS = ["floats are finite (no NaN/infinity, no overflow: gains/offsets/slot values whose products leave the float "
+               "range are outside the theorems and not generated); parameter ranges have min <= max (logmin <= max); "
+               "log-scale bounds are positive",
+               "integer parameters have integer-valued bounds below 2^24 that fit an int",
+               "a bound address has at most 127 characters (createBinding copies it into a 128-byte buffer and cuts "
+               "off the rest; hypothesis path.length <= 127 of OpWF; generated addresses have 3..120 characters)",
                "MIDI channel >= 0 and 0 <= controller number < 128",
                "createBinding is called with a slot index inside the manager (the code does not check it)",
                "monotonicity / range theorems are stated for any arithmetic satisfying the order laws Rtosc.Auto.Laws (a "
                "hypothesis, never an axiom); the laws are proved for exact rationals and for the IEEE-754 rounding model "
                "the driver runs (ieee_model_laws); what stays assumed is that the compiled float code is that model "
                "(checked bit for bit by the correspondence stream) and that libm's logf/expf are monotone",
-               "log-scale parameters: expf/logf are libm's; the emitted value is checked against the property with "
-               "relative tolerance 1e-5 by the oracle, the model predicts the argument of expf bit-exactly"]
+               "log-scale parameters: expf/logf are libm's; the theorem bounds the value by expf(logf(lower bound)) and "
+               "expf(logf(max)), i.e. by the declared bounds up to libm's rounding; the emitted value is checked against "
+               "the declared bounds and the logarithmic map with relative tolerance 1e-5 (integers: plus the rounding "
+               "to the nearest integer) by the oracle; the model predicts the argument of expf bit-exactly",
+               "the statement does not say what a slot emits at the moment it learns a controller, nor in which order "
+               "the sub-automations of one slot emit: the learn-time emission is masked and the messages of one "
+               "operation are compared as a multiset in the model/implementation comparison; the oracle accepts a "
+               "learn-time emission or none and any order (each message must still be a correct message of a bound "
+               "sub-automation)",
+               "the ghost field Automation.bound of the model (address and port of the call that bound the automation) "
+               "is read by no model function; binding_is_recorded ties it to the operation history"]
 TRUSTED = ["hand-written model RtoscModel/Auto.lean of AutomationMgr (createBinding, setSlotSubPath, updateMapping, "
            "setSlot, setSlotSub, clearSlot, clearSlotSub, setSlotSubGain/Offset, handleMidi, setparameternumber, getnrpn)",
            "RtoscModel/AutoFloat.lean: IEEE-754 binary32/binary64 round-to-nearest-even over Rat (validated bit-for-bit "
            "against the compiled code by the correspondence stream; its monotonicity is proved, Proofs/AutoFloatLemmas.lean)",
-           "libm logf/expf (log-scale parameters)"]
+           "libm logf/expf (log-scale parameters); the link-time interception of expf/exp in the harness "
+           "(-Wl,--wrap) that exposes the argument of the exponential",
+           "Ports::apropos resolving the generated flat and nested addresses (C18's subject): the model takes the "
+           "port found for an address as an input"]
 LEVEL_TEXT = ("Lean theorems over all operation histories of any length and any number of slots: the learn-queue "
               "numbering refines an abstract FIFO queue and keeps the request order (learn_queue_refines, "
               "learn_order_preserved), a bound controller drives exactly its slot (bound_cc_drives_its_slot), every "
-              "emitted message has the bound address and type and a clamped value (emit_in_range_right_type), emission is "
+              "emitted message goes to the address, has the type and lies in the declared range of the PORT its "
+              "automation was last bound to (emit_in_range_right_type, stated against an independent specification of "
+              "a port's type and range; binding_is_recorded proves that the model's ghost binding table is changed by "
+              "createBinding/setSlotSubPath/clearSlot/clearSlotSub exactly as the statement reads them and by nothing "
+              "else), emission is "
               "monotone for non-negative gain (emit_monotone) under explicit order laws of float arithmetic that are proved "
               "for the IEEE rounding model the driver runs (ieee_model_laws), and the "
-              "default mapping is exactly linear over Rat (default_gain_linear); the model is compared bit-for-bit "
+              "default mapping is exactly linear over Rat for linear-scale parameters (default_gain_linear; for log "
+              "scale the map is checked by the oracle within the stated tolerance); the model is compared bit-for-bit "
               "(IEEE rounding modelled exactly) with the compiled implementation on thousands of generated histories "
-              "per run, and the property is evaluated directly on the implementation's output by an independent "
-              "Python reference")
+              "per run (whole type-tag string, first argument and message size of every emitted message), and the "
+              "property is evaluated directly on the implementation's output by an independent Python reference")
+LEVEL_NOTE = ("Trusted: Lean kernel; the hand-written model is tied to the code by differential execution only; see evidence trusted_base. Open: for log-scale parameters the theorem's bounds are expf(logf(bound)), not the bound itself (libm "
+              "rounding; oracle tolerance 1e-5); default_gain_linear covers linear scale only; float overflow "
+              "(gain around 3e38) and integer bounds beyond the int range are outside the theorems' arithmetic "
+              "assumptions: there the real code emits INT_MIN / lets NaN through its clamps (review B1/B2, not generated)")
 TECHNIQUE = "Lean 4 model + invariants over histories; bit-exact float correspondence; independent property oracle"
 
 # ---------------------------------------------------------------------------------------
@@ -646,6 +673,7 @@ def oracle(op, out):
         # the statement fixes no order among the messages of one slot's sub-automations: accept any
         # assignment of the emitted messages to the bound automations (the order of emission first)
         first = None
+        passing = []
         for perm in itertools.permutations(range(len(expect))):
             bad = None
             for m, pi in zip(msgs, perm):
@@ -654,15 +682,24 @@ def oracle(op, out):
                 if bad:
                     break
             if bad is None:
-                for m, pi in zip(msgs, perm):
-                    a, b, x = expect[pi]
-                    check_value(subs[a][b].port, subs[a][b], x, m, where)
-                break
-            if first is None:
+                passing.append(perm)
+            elif first is None:
                 first = bad
-        else:
-            if first is not None:
-                return first
+        if not passing and first is not None:
+            return first
+        if passing:
+            # which message belongs to which sub-automation may be ambiguous (same parameter bound twice):
+            # a sample is recorded for the monotonicity check only where every admissible assignment agrees
+            cand = {}
+            for perm in passing:
+                for m, pi in zip(msgs, perm):
+                    cand.setdefault(pi, set()).add((m["addr"], m["type"], m["val"]))
+            for m, pi in zip(msgs, passing[0]):
+                a, b, x = expect[pi]
+                if len(cand[pi]) == 1:
+                    check_value(subs[a][b].port, subs[a][b], x, m, where)
+                else:
+                    subs[a][b].samples = []
         # ---- bookkeeping observables --------------------------------------------------------
         for s in range(nslots):
             exp_learn = queue.index(s) + 1 if s in queue else -1
@@ -770,6 +807,7 @@ def main(argv):
             impl = last["out"]          # the very list the runner compares with: patched in place
             for k, (op, r) in enumerate(zip(ops, raw)):
                 if impl[k] != out[k] and ",~,x=" in r:
+                    _RAW[op] = last["raw"][k]          # the oracle keeps seeing what the harness printed
                     impl[k] = canon(op, reconcile(last["raw"][k], r))
         return out
 
